@@ -299,7 +299,8 @@ def St.newRef (env : Env) (s : St) (r : RefId) : St :=
 def St.changeRef (env : Env) (s : St) (r : RefId) : St :=
   ((s.delRef env r).newRef env r).clearAttrReferrers r
 
-/-- `space.name = value` (`set_attr`): `change_ref` when the reference exists, `new_ref` otherwise -/
+/-- `space.name = value` (`set_attr`): `change_ref` when the reference exists, `new_ref` otherwise
+(`env` = the environment BEFORE the edit: the clearing runs first, then the binding changes) -/
 def St.setRef (env : Env) (s : St) (r : RefId) : St :=
   if (env.refs r).isSome then s.changeRef env r else s.newRef env r
 
